@@ -55,6 +55,14 @@ def run(tier, seed, replay):
         expect.append(None)
     impl, model = kernel_pair(lines, shards=8)
     diverged, oracle_fail, nontriv = [], [], set()
+    # long-lived connections (implementation only; the theorems cover every length for the model): per-channel order and
+    # exactly-once must not depend on how many messages the connection has carried
+    long_cases = [(70000, 1500), (66000, 7), (140000, 4000)] if tier == "quick" else [(70000, 1500), (66000, 7), (140000, 4000), (300000, 64), (200000, 1), (1000000, 2500)]
+    long_lines = ["cond_long %d %d" % c for c in long_cases]
+    for l, a in zip(long_lines, run_lines(harness_bin("kernels"), long_lines, shards=len(long_lines))):
+        if not a.startswith("ok "):
+            oracle_fail.append(dict(request=l, implementation=a, why="on a long-lived connection messages of one receiver frame were delivered out of sending order (or lost/duplicated)"))
+    rep.cov["long_runs"] = long_cases
     for l, a, b, e in zip(lines, impl, model, expect):
         if a != b:
             diverged.append(dict(request=l[:300], implementation=a[:300], model=b[:300]))
